@@ -72,8 +72,9 @@ def _rsa(bits, e):
     from Crypto.PublicKey import RSA
     if ("rsa", bits, e) not in _KEYS:
         c = rsa_components(bits, e)
+        # fixture keys are inputs: the (costly, randomised) consistency check runs in its own items only
         _KEYS[("rsa", bits, e)] = (RSA.construct((c["n"], c["e"], c["d"], c["p"], c["q"]),
-                                                 consistency_check=True), c)
+                                                 consistency_check=False), c)
     return _KEYS[("rsa", bits, e)]
 
 
@@ -158,6 +159,12 @@ def sec_rsa_keys(tier):
             k, c = _rsa(bits, e)
             return (k.u, k.dp, k.dq, k.invq, k.size_in_bits(), k.size_in_bytes(), _tn(k.u))
         yield "rsa-construct/crt/" + tagk, crt
+
+        def checked(bits=bits, e=e):
+            k, c = _rsa(bits, e)
+            r = RSA.construct((c["n"], c["e"], c["d"], c["p"], c["q"]), consistency_check=True)
+            return (r.n, r.u, r == k)
+        yield "rsa-construct/consistency-check/" + tagk, checked
         for fmt, kw in (("DER-pkcs1", dict(format="DER", pkcs=1)), ("DER-pkcs8", dict(format="DER", pkcs=8)),
                         ("PEM-pkcs1", dict(format="PEM", pkcs=1)), ("PEM-pkcs8", dict(format="PEM", pkcs=8)),
                         ("PEM-enc", dict(format="PEM", pkcs=1, passphrase=b"pw")),
@@ -229,7 +236,7 @@ def _dsa(L):
     from Crypto.PublicKey import DSA
     if ("dsa", L) not in _KEYS:
         c = dsa_components(L)
-        _KEYS[("dsa", L)] = (DSA.construct((c["y"], c["g"], c["p"], c["q"], c["x"]), consistency_check=True), c)
+        _KEYS[("dsa", L)] = (DSA.construct((c["y"], c["g"], c["p"], c["q"], c["x"]), consistency_check=False), c)
     return _KEYS[("dsa", L)]
 
 
@@ -286,6 +293,11 @@ def sec_dsa(tier):
                 blob = k.public_key().export_key(format=fmt)
                 return (blob, DSA.import_key(blob).y)
             yield lab, exportp
+        def checked(L=L):
+            k, c = _dsa(L)
+            r = DSA.construct((c["y"], c["g"], c["p"], c["q"], c["x"]), consistency_check=True)
+            return (r.y, r.x, r == k)
+        yield "dsa-construct/consistency-check/L%d" % L, checked
         for bad in ("g=1", "y=0", "q-composite", "x>=q"):
             lab = "dsa-construct/refuse/%s/L%d" % (bad, L)
 
@@ -380,7 +392,7 @@ def sec_ecc(tier):
                     out.append(s)
                     h = SHA512.new(m) if cv == "ed25519" else SHAKE256.new(m)
                     out.append(eddsa.new(k, "rfc8032", context=b"ctx").sign(h))
-                back = ECC.import_key(out[0], curve_name=cv)
+                back = eddsa.import_public_key(out[0])
                 out.append((int(back.pointQ.x), int(back.pointQ.y)))
                 return out
             yield lab, ed
@@ -416,7 +428,7 @@ def sec_primality(tier):
     adversarial families of mc.ref.nt"""
     from Crypto.Math import Primality
     from mc.ref import nt
-    top = 2 ** 15 if tier == "thorough" else 2 ** 12
+    top = 2 ** 17 if tier == "thorough" else 2 ** 12
 
     def verdicts(ns, lab):
         out = []
@@ -430,25 +442,28 @@ def sec_primality(tier):
         lab = "primality/range/%d-%d" % (lo, lo + 255)
         yield lab, (lambda lo=lo, lab=lab: verdicts(range(lo, lo + 256), lab))
     fams = {}
+    lim = 10 ** 7 if tier == "thorough" else 10 ** 6
+    ps = nt.sieve(400)
+    makers = {
+        "carmichael": lambda: nt.carmichael_numbers(lim),
+        "chernick": lambda: [n for _, n in nt.chernick(400 if tier == "thorough" else 120)],
+        "spsp2": lambda: nt.strong_pseudoprimes((2,), lim // 4),
+        "spsp23": lambda: nt.strong_pseudoprimes((2, 3), lim if tier == "thorough" else 3 * 10 ** 6 // 2),
+        "psi": lambda: sorted(nt.PSI.values()),
+        "lucas": lambda: nt.lucas_pseudoprimes(10 ** 5 if tier == "thorough" else 3 * 10 ** 4),
+        "slucas": lambda: nt.lucas_pseudoprimes(10 ** 5 if tier == "thorough" else 3 * 10 ** 4, strong=True),
+        "prime-squares": lambda: [p * p for p in ps],
+        "twin-products": lambda: [p * (p + 2 * k) for p in ps[1:40] for k in (1, 2, 3)],
+        "mersenne": lambda: [2 ** k - 1 for k in (13, 17, 19, 31, 61, 67, 89, 107, 127, 257, 521, 607)],
+        "fermat": lambda: [2 ** (2 ** k) + 1 for k in range(0, 9)],
+        "curve-primes": lambda: [2 ** 255 - 19, 2 ** 256 - 2 ** 224 + 2 ** 192 + 2 ** 96 - 1, 2 ** 521 - 1,
+                                 2 ** 448 - 2 ** 224 - 1, 2 ** 224 - 2 ** 96 + 1,
+                                 (2 ** 255 - 19) * (2 ** 127 - 1), (2 ** 127 - 1) ** 2],
+    }
 
     def fam(name):
-        if not fams:
-            lim = 10 ** 7 if tier == "thorough" else 10 ** 6
-            fams["carmichael"] = nt.carmichael_numbers(lim)
-            fams["chernick"] = [n for _, n in nt.chernick(400 if tier == "thorough" else 120)]
-            fams["spsp2"] = nt.strong_pseudoprimes((2,), lim // 4)
-            fams["spsp23"] = nt.strong_pseudoprimes((2, 3), lim)
-            fams["psi"] = sorted(nt.PSI.values())
-            fams["lucas"] = nt.lucas_pseudoprimes(10 ** 5 if tier == "thorough" else 3 * 10 ** 4)
-            fams["slucas"] = nt.lucas_pseudoprimes(10 ** 5 if tier == "thorough" else 3 * 10 ** 4, strong=True)
-            ps = nt.sieve(400)
-            fams["prime-squares"] = [p * p for p in ps]
-            fams["twin-products"] = [p * (p + 2 * k) for p in ps[1:40] for k in (1, 2, 3)]
-            fams["mersenne"] = [2 ** k - 1 for k in (13, 17, 19, 31, 61, 67, 89, 107, 127, 257, 521, 607)]
-            fams["fermat"] = [2 ** (2 ** k) + 1 for k in range(0, 9)]
-            fams["curve-primes"] = [2 ** 255 - 19, 2 ** 256 - 2 ** 224 + 2 ** 192 + 2 ** 96 - 1, 2 ** 521 - 1,
-                                    2 ** 448 - 2 ** 224 - 1, 2 ** 224 - 2 ** 96 + 1,
-                                    (2 ** 255 - 19) * (2 ** 127 - 1), (2 ** 127 - 1) ** 2]
+        if name not in fams:
+            fams[name] = makers[name]()
         return fams[name]
     for name in ("carmichael", "chernick", "spsp2", "spsp23", "psi", "lucas", "slucas", "prime-squares",
                  "twin-products", "mersenne", "fermat", "curve-primes"):
@@ -530,11 +545,17 @@ def main(argv):
     from Crypto.Math import Numbers
     out = sys.stdout
     out.write("#backend\t%s\n" % Numbers.Integer.__name__)
-    for i, (label, thunk) in enumerate(SECTIONS[section](tier)):
+    import os
+    import Crypto
+    out.write("#crypto\t%s\n" % os.path.realpath(os.path.dirname(Crypto.__file__)))
+    items = list(SECTIONS[section](tier))          # thunks are lazy: listing costs nothing
+    total = len(items)
+    lo, hi = part * total // nparts, (part + 1) * total // nparts   # contiguous slices: neighbours share keys
+    for i, (label, thunk) in enumerate(items):
         if only is not None:
             if label != only:
                 continue
-        elif i % nparts != part:
+        elif not lo <= i < hi:
             continue
         try:
             v = _render(thunk())
